@@ -224,6 +224,31 @@ fn separators_to_spaces(s: String) -> String {
     s.replace(['_', '-'], " ")
 }
 
+/// Idempotent custom sanitizer that can make a non-empty string EMPTY (and shorter in general).
+fn remove_dashes(s: String) -> String {
+    s.replace('-', "")
+}
+/// Idempotent custom sanitizer that can make a string LONGER.
+fn amp_to_and(s: String) -> String {
+    s.replace('&', "and")
+}
+fn gen_dash_string(rng: &mut Rng) -> String {
+    match rng.below(4) {
+        0 => "-".repeat(rng.range_usize(1, 4)),
+        1 => {
+            let mut s = gen_string(rng, 5);
+            s.push('-');
+            s.insert(0, '-');
+            s
+        }
+        2 => {
+            let n = rng.range_usize(0, 9);
+            (0..n).map(|_| *rng.pick(&['a', '&', 'B', '-', 'ß'])).collect()
+        }
+        _ => gen_string(rng, 8),
+    }
+}
+
 fn gen_sep_string(rng: &mut Rng) -> String {
     let mut s = String::new();
     for _ in 0..rng.below(3) {
@@ -374,6 +399,27 @@ chain_decls! {
     family = "string"; validated = true; arbitrary = false; default = false;
     gen = |r| gen_sep_string(r);
     text = |r| gen_sep_string(r);
+
+    #[nutype(sanitize(with = remove_dashes, lowercase), validate(not_empty, len_char_max = 10),
+        derive(Debug, Clone, PartialEq, Display, FromStr, TryFrom, Into, AsRef, Deref, Serialize, Deserialize))]
+    struct DashlessLower(String);
+    family = "string"; validated = true; arbitrary = false; default = false;
+    gen = |r| gen_dash_string(r);
+    text = |r| gen_dash_string(r);
+
+    #[nutype(sanitize(uppercase, with = remove_dashes), validate(not_empty),
+        derive(Debug, Clone, PartialEq, Display, FromStr, TryFrom, Into, AsRef, Deref, Serialize, Deserialize))]
+    struct UpperDashless(String);
+    family = "string"; validated = true; arbitrary = false; default = false;
+    gen = |r| gen_dash_string(r);
+    text = |r| gen_dash_string(r);
+
+    #[nutype(sanitize(with = amp_to_and), validate(len_char_min = 2, len_char_max = 8),
+        derive(Debug, Clone, PartialEq, Display, FromStr, TryFrom, Into, AsRef, Deref, Serialize, Deserialize))]
+    struct AmpAnd(String);
+    family = "string"; validated = true; arbitrary = false; default = false;
+    gen = |r| gen_dash_string(r);
+    text = |r| gen_dash_string(r);
 
     #[nutype(validate(len_char_min = 1),
         derive(Debug, Clone, PartialEq, Display, FromStr, TryFrom, Into, AsRef, Deref, Serialize, Deserialize, Arbitrary))]
